@@ -8,7 +8,7 @@ from . import coretypes as ct
 from . import array_folds as af
 from . import quantity_stack as qs
 
-EXPLANATION = 'Folds of core/array.py with the Array class itself interpreted over buffer/unit/dtype tokens: (R1) every arithmetic dunder evaluated with _binary_op stubbed: operation, operand order, strictness and out=self per the Python data-model table S4; composites (k*a, k/a, a**k, -a) in a rational quantity algebra; (R2) _binary_op over right-operand kinds {Array same/compatible/incompatible unit, number, ndarray, Quantity, dimensionless family} x strictness: the right operand reaches numpy converted to the left unit (values scaled by the exact unit ratio), incompatible dimensions raise, operands unchanged; Array.__init__ over value kinds; (R3/R4/R6) _wrap_numpy over function names x the 16-dtype model x operand kinds: unit derived by applying the function to the operand units for the multiplicative table, inherited otherwise, every numeric dtype keeps its unit, buffers/units extracted from every argument; (R5) Array.to over unit relations x dtypes: identity for equal units, exact ratio, no cast back to an integer dtype, receiver untouched. (R7) end to end: the whole Array class under dispatching numpy models, decided on physical values (values x symbolic unit scale): every operator, scalars, powers in sequence, in-place forms, a conversion repeated after the buffer changed; operand kinds include numpy scalars, python lists and 0-d Arrays. (R8) histories probe; mutator; same probe over Arrays in m/cm/s, an array-valued Quantity, python 0 and the same object twice, every live object compared with the quantity algebra after every step; R7 also covers 2/a and a**k for k in {3, -1, -1.0, 1, 2.0} on float and integer data (numpy refuses int ** negative int and has integer reciprocal).'
+EXPLANATION = 'Folds of core/array.py with the Array class itself interpreted over buffer/unit/dtype tokens: (R1) every arithmetic dunder evaluated with _binary_op stubbed: operation, operand order, strictness and out=self per the Python data-model table S4; composites (k*a, k/a, a**k, -a) in a rational quantity algebra; (R2) _binary_op over right-operand kinds {Array same/compatible/incompatible unit, number, ndarray, Quantity, dimensionless family} x strictness: the right operand reaches numpy converted to the left unit (values scaled by the exact unit ratio), incompatible dimensions raise, operands unchanged; Array.__init__ over value kinds; (R3/R4/R6) _wrap_numpy over function names x the 16-dtype model x operand kinds: unit derived by applying the function to the operand units for the multiplicative table, inherited otherwise, every numeric dtype keeps its unit, buffers/units extracted from every argument; (R5) Array.to over unit relations x dtypes: identity for equal units, exact ratio, no cast back to an integer dtype, receiver untouched. (R7) end to end: the whole Array class under dispatching numpy models, decided on physical values (values x symbolic unit scale): every operator, scalars, powers in sequence, in-place forms, a conversion repeated after the buffer changed; operand kinds include numpy scalars, python lists and 0-d Arrays. (R8) histories probe; mutator; same probe over Arrays in m/cm/s, an array-valued Quantity, python 0 and the same object twice, every live object compared with the quantity algebra after every step; R7 also covers 2/a and a**k for k in {3, -1, -1.0, 1, 2.0} on float and integer data (numpy refuses int ** negative int and has integer reciprocal). The history pool includes a 0-d Array (falsy under len()).'
 NOT_DECIDED = 'numeric values computed by numpy, conversion factors computed by pint, broadcasting shapes'
 TRUSTED = ('CPython ast', 'numpy/pint behave as documented', 'S4 operator table (sa/specs/operators.py)', 'numpy dtype model (sa/specs/npmodel.py)', 'the interpreter sa/models.py')
 
